@@ -13,7 +13,8 @@ RULE = ("(i) GC requests on caller-supplied heaps through the verif_collect hook
         "the post-state equals the Lean model's. (ii) allocation-heavy and aliasing programs run with the collection schedule "
         "forced to never / always / three random masks over the statement boundaries: the implementation's output and end "
         "status must be identical under every schedule, and each run equals the model's. "
-        "Non-trivial: the heap has a cycle or an unreachable object / the program allocates at least 10 containers.")
+        "Non-trivial: the heap has a cycle or an unreachable object / the program allocates at least 10 containers."
+        ' Root names of every shape (leading `_`, joiners, non-ASCII) in the random heaps and in the allocation programs.')
 ASSUMPTIONS = ["collections happen only at top-level statement boundaries (that is where Interpreter::run may collect)"]
 default_compare = C.compare_exact
 
@@ -127,7 +128,14 @@ def random_heap(r):
     # half of the heaps SHADOW: the same variable name is bound in several open scopes (to different containers) — every
     # binding of every scope is a root, not only the innermost one of each name
     shadow = r.chance(0.5)
-    scopes = [[((f"v{j}" if shadow else f"v{s}{j}"), v()) for j in range(r.below(4))] for s in range(r.range(1, 4 if shadow else 3))]
+    # … under names of every shape (starting with `_` like the built-in names, outside ASCII, with joiners, one character):
+    # a binding is a root whatever it is called
+    shapes = ["v{}", "_v{}", "_\u09a4\u09be\u09b2\u09bf\u0995\u09be{}", "\u0995{}", "\u09b0\u200d\u09cd\u09af{}", "__{}", "-{}", "V{}"]
+    sh = r.choice(shapes) if r.chance(0.5) else None
+    def nm(s_, j):
+        base = f"{j}" if shadow else f"{s_}{j}"
+        return (sh or r.choice(shapes)).format(base)
+    scopes = [[(nm(s, j), v()) for j in range(r.below(4))] for s in range(r.range(1, 4 if shadow else 3))]
     return (scopes, lists, records, [i for i in range(nl) if r.chance(0.1)], [i for i in range(nr) if r.chance(0.1)])
 
 
@@ -173,9 +181,13 @@ def alloc_program(r):
     if r.chance(0.4):
         body.append(("decl", "ভাগ", G.call("_স্ট্রিং-স্প্লিট", G.s("a,b,c"), G.s(","))))
         body.append(("print", G.idx(G.var("ভাগ"), G.num(1))))
+    # long-lived containers under names that look like built-in names (leading `_`) or carry a joiner
+    odd = r.choice(["_\u09a5\u09b2\u09bf", "_\u09a4\u09be\u09b2\u09bf\u0995\u09be", "\u09b0\u200d\u09cd\u09af\u09be\u0982\u0995", "__", "_x"])
+    prog.insert(0, ("decl", odd, G.lst(G.num(7), G.lst(G.num(8)), G.rec((G.s("k"), G.lst(G.num(9)))))))
     body.append(("print", G.var("রাখা")))
     body.append(("print", G.idx(G.var("নথি"), G.s("তালিকা"))))
     prog.append(("loop", body))
+    prog.append(("print", G.var(odd)))
     prog.append(("print", G.var("রাখা")))
     prog.append(("print", G.call("_লিস্ট-লেন", G.idx(G.var("নথি"), G.s("তালিকা")))))
     return prog
